@@ -81,6 +81,41 @@ def gen_degenerate(rng):
             "integers": ints, "minimize": True, "ub": [k] * n, "free_var": None, "configs": _configs(rng, 2)}
 
 
+def _origin_not_optimal(c):
+    """Cheap sufficient test: some point e_i or e_i + e_j is feasible and better than the origin."""
+    n, A, cc = len(c["c"]), c["A"][:-1], c["c"]
+    for i in range(n):
+        for j in range(i, n):
+            if cc[i] + (cc[j] if j != i else 0) < 0 and all(r[i] + (r[j] if j != i else 0) <= 0 for r in A):
+                return True
+    return False
+
+
+def gen_degenerate_guided(rng, k=600):
+    """Greybox-guided member of the degenerate family: of k candidate cones those whose origin is not optimal are kept,
+    and of these the one whose root LP needs the most simplex pivots under the code being checked (solve_lp capped at 300
+    pivots) is the case.  Stalling / cycling at a degenerate vertex is a 1-in-tens-of-thousands coincidence even among such
+    cones; the guidance brings it into a quick run.  The chosen program is stored in the case like any other, so replay
+    does not repeat the search."""
+    cands = [c for c in (gen_degenerate(rng) for _ in range(k)) if _origin_not_optimal(c)]
+    if not cands:
+        return gen_degenerate(rng)
+    try:
+        solve_lp = solvor_mod("simplex").solve_lp
+    except Exception:  # noqa: BLE001 - no library on the path (master regenerating a case): unguided
+        return cands[0]
+    best, best_it = cands[0], -1
+    for c in cands:
+        try:
+            it = solve_lp(c["c"], c["A"], c["b"], minimize=True, max_iter=300).iterations
+        except Exception:  # noqa: BLE001 - judged when the case is executed, not here
+            it = 10 ** 6
+        if it > best_it:
+            best, best_it = c, it
+    best["guided_pivots"] = best_it
+    return best
+
+
 def shifted(rng, case):
     """The same program with the integer variables moved far from the origin (x_j = L_j + y_j): values of the order 1e5-1e6
     with the same fractional parts in the relaxation."""
@@ -135,6 +170,8 @@ def generate(rng, tier):
         return gen_subset_sum(rng)
     if y < (0.08 if tier == "quick" else 0.2):
         return gen_degenerate(rng)
+    if 0.6 < y < 0.64:
+        return gen_degenerate_guided(rng)
     case = generate_small(rng, tier)
     if case["free_var"] is None and rng.random() < 0.08:
         case = shifted(rng, case)
